@@ -244,3 +244,7 @@ def _geometry(V):
         G.eqs(f"post/bond-length-is-the-sum-of-covalent-radii/{j}", V, [(d2, z3.RealVal(str(consts[j])) * L * L)],
               hyps=st.ghost.get("R_orth") if hint == 3 else None)
     V.ensure("post/length-constants-within-tolerance-of-one", z3.BoolVal(all(abs(float(c) - 1) < 2 * TOL for c in consts)))
+
+
+# the placement proof uses rotation_matrix_from_vectors through its C11 contract: that contract is part of this claim
+P.include(G.P, ["rotation_matrix_from_vectors[general branch]"], why="used modularly when placing hydrogens")
